@@ -346,3 +346,126 @@ theorem fromKube_segs (E : Env) (path : Str) (u svc : SUnit) (h : fromKube E pat
       exact h1.applyWd _
 
 end Cv
+
+namespace Cv
+open MM
+
+/-! ### .volume -/
+theorem hasKey_congr {u u' : SUnit} {sec k : Str} (h : assignments u sec k = assignments u' sec k) : hasKey u sec k = hasKey u' sec k := by
+  unfold hasKey; rw [h]
+
+def imageSourceName (E : Env) (name : Str) : R Str :=
+  if endsWith name (s ".build") || endsWith name (s ".image") then
+    match E.info name with
+    | none => .error (.imageNotFound name)
+    | some i => .ok i.resourceName
+  else .ok name
+
+theorem handleImageSource_fst (E : Env) (name : Str) (svc : SUnit) : fstR (handleImageSource E name svc) = imageSourceName E name := by
+  unfold handleImageSource imageSourceName
+  split
+  · cases E.info name <;> rfl
+  · rfl
+
+/-- the argument projection of `volumeOpts` -/
+def volumeOptArgs (E : Env) (u : SUnit) : R (List Str) := fstR (volumeOpts E u [])
+
+theorem volumeOpts_fst (E : Env) (u : SUnit) (svc svc0 : SUnit) : fstR (volumeOpts E u svc) = fstR (volumeOpts E u svc0) := by
+  unfold volumeOpts
+  simp only []
+  split
+  · cases lookup u (s "Volume") (s "Image") with
+    | none => rfl
+    | some img =>
+      simp only []
+      have h1 := handleImageSource_fst E img svc
+      have h2 := handleImageSource_fst E img svc0
+      cases hr : handleImageSource E img svc with
+      | error e =>
+        rw [hr] at h1; simp only [fstR] at h1
+        cases hr0 : handleImageSource E img svc0 with
+        | error e0 => rw [hr0] at h2; simp only [fstR] at h2; rw [← h1] at h2; cases h2; rfl
+        | ok p0 => rw [hr0] at h2; simp only [fstR] at h2; rw [← h1] at h2; cases h2
+      | ok p =>
+        rw [hr] at h1; simp only [fstR] at h1
+        cases hr0 : handleImageSource E img svc0 with
+        | error e0 => rw [hr0] at h2; simp only [fstR] at h2; rw [← h1] at h2; cases h2
+        | ok p0 =>
+          rw [hr0] at h2; simp only [fstR] at h2; rw [← h1] at h2
+          have : p0.1 = p.1 := by injection h2
+          obtain ⟨a, b⟩ := p; obtain ⟨a0, b0⟩ := p0
+          simp only at this; subst this
+          rfl
+  · split
+    · rfl
+    · split
+      · rfl
+      · rfl
+
+theorem volumeOpts_args (E : Env) (u svc : SUnit) (r : List Str × SUnit) (h : volumeOpts E u svc = .ok r) :
+    volumeOptArgs E u = .ok r.1 := by
+  unfold volumeOptArgs
+  rw [← volumeOpts_fst E u svc []]
+  exact fstR_ok h
+
+def volOptKeys : List Str := [s "Driver", s "Image", s "User", s "Group", s "Copy", s "Device", s "Type", s "Options"]
+
+theorem volumeOpts_congr (E : Env) (u u' : SUnit) (svc : SUnit)
+    (h : ∀ k ∈ volOptKeys, assignments u (s "Volume") k = assignments u' (s "Volume") k) : volumeOpts E u svc = volumeOpts E u' svc := by
+  unfold volumeOpts
+  simp only []
+  rw [lookup_congr (h (s "Driver") (by decide)), lookup_congr (h (s "Image") (by decide)), hasKey_congr (h (s "User") (by decide)),
+    lookup_congr (h (s "User") (by decide)), hasKey_congr (h (s "Group") (by decide)), lookup_congr (h (s "Group") (by decide)),
+    lookupBool_congr (h (s "Copy") (by decide)), lookup_congr (h (s "Device") (by decide)), lookup_congr (h (s "Type") (by decide)),
+    lookup_congr (h (s "Options") (by decide))]
+
+def segVolOpts (E : Env) : Seg := ⟨volOptKeys, fun u => blockOf (volumeOptArgs E u)⟩
+theorem segVolOpts_local (E : Env) : (segVolOpts E).Local (s "Volume") := by
+  intro u u' h
+  simp only [segVolOpts, volumeOptArgs]
+  rw [volumeOpts_congr E u u' [] h]
+
+def volumeNameOf (path : Str) (u : SUnit) : Str :=
+  if ((lookup u (s "Volume") (s "VolumeName")).getD []).isEmpty then s "systemd-" ++ fileStem (fileName path)
+  else (lookup u (s "Volume") (s "VolumeName")).getD []
+
+def volumeSegs (E : Env) (path : Str) : List Seg :=
+  let sec := s "Volume"
+  [segConst [E.podman]]
+    ++ Gen.tbl_get_base_podman_command_inline_lookup_and_add_all_strings.map (segAll sec)
+    ++ [segArgs sec "GlobalArgs", segConst [s "volume", s "create", s "--ignore"], segVolOpts E,
+        segKeyVal sec "--label" "Label", segArgs sec "PodmanArgs", segMulti [s "VolumeName"] (fun u => [volumeNameOf path u])]
+
+theorem volumeSegs_local (E : Env) (path : Str) : ∀ g ∈ volumeSegs E path, g.Local (s "Volume") := by
+  intro g hg
+  simp only [volumeSegs, List.mem_append, List.mem_map, List.mem_cons, List.not_mem_nil, or_false] at hg
+  rcases hg with (rfl | ⟨r, _, rfl⟩) | rfl | rfl | rfl | rfl | rfl | rfl
+  · exact segConst_local _ _
+  · exact segAll_local _ _
+  · exact segArgs_local _ _
+  · exact segConst_local _ _
+  · exact segVolOpts_local _
+  · exact segKeyVal_local _ _ _
+  · exact segArgs_local _ _
+  · intro u u' h
+    simp only [segMulti, volumeNameOf]
+    rw [lookup_congr (h _ (by simp [segMulti]))]
+
+theorem fromVolume_segs (E : Env) (path : Str) (u svc : SUnit) (n : Str) (h : fromVolume E path u = .ok (svc, n)) :
+    HasExec svc "ExecStart" (cmdOf (volumeSegs E path) u) := by
+  unfold fromVolume at h
+  simp only [bind_ok] at h
+  obtain ⟨_, _, _, _, x, hx, svc1, hexec, hfin⟩ := h
+  simp only [pure, Except.pure, Except.ok.injEq, Prod.mk.injEq] at hfin
+  obtain ⟨rfl, rfl⟩ := hfin
+  have e1 := blockOf_ok (volumeOpts_args E u _ x hx)
+  have e : cmdOf (volumeSegs E path) u =
+      baseCmd E u (s "Volume") ++ [s "volume", s "create", s "--ignore"] ++ x.1
+        ++ addKeys "--label" (lookupAllKeyVal u (s "Volume") (s "Label")) ++ podmanArgs u (s "Volume") ++ [volumeNameOf path u] := by
+    unfold volumeSegs
+    simp only [cmdOf_append, cmdOf_all]
+    simp [cmdOf, baseCmd, moduleArgs, addAllStrings0, addAllStrings, podmanArgs, segConst, segArgs, segKeyVal, segMulti, segVolOpts, e1]
+  rw [e]
+  exact (HasExec.of_addRawExec hexec).oneShot true (by decide) (by decide) (by decide)
+
+end Cv
